@@ -61,8 +61,10 @@ structure St where
   inis : List Ini := []
   spec : Spec := {}
 
-/-- slack for the few virtual milliseconds a message is under way -/
+/-- slack for the virtual milliseconds the responder's answer and its acknowledgement are under way -/
 def slackMs : Nat := 200
+/-- slack for the few virtual milliseconds the initiator's next message is under way -/
+def aliveSlackMs : Nat := 50
 
 def tabOf (s : Pase.St) : String :=
   let c (p : Slot → Bool) : Nat := (s.table.filter p).length
@@ -119,7 +121,7 @@ def reap (m : Pase.St) (now : Nat) : Option Pase.St :=
       let rx := rxTimeoutMs t.mrp localActiveMs
       if now ≥ t.since + rx + sendLadderMs t.mrp + slackMs then
         some (Pase.step { m with now := max m.now (t.since + rx) } (.rxTimeout t.exch)).1
-      else if now + slackMs > t.since + rx then none
+      else if now + aliveSlackMs > t.since + rx then none
       else some m) (some m)
 
 def specExpire (sp : Spec) (now : Nat) : Spec :=
